@@ -278,6 +278,8 @@ class Graph:
                 values = edge[2]
                 if isinstance(values, str):
                     values = [values]
+                elif not isinstance(values, (list, tuple)) or not all(isinstance(v, str) for v in values):
+                    raise GraphConfigError(f"Edge ({src}, {dst}): value names must be a string or a list of strings, got {values!r}")
                 src_outputs = set(self._nodes[src].outputs)
                 dst_inputs = set(self._nodes[dst].inputs)
                 for v in values:
